@@ -19,7 +19,7 @@ RULE = ("k in {2,3,4} objects on one file under a common buffered state: either 
         ">= 1 wrote.")
 ASSUMPTIONS = ["objects in *different* buffered states on one file are not generated (documented as unsupported)"]
 STRATA = ["item_writes", "clear_reset"]
-PER = {"quick": {"item_writes": 250, "clear_reset": 150}, "thorough": {"item_writes": 6000, "clear_reset": 3000}}
+PER = {"quick": {"item_writes": 1000, "clear_reset": 600}, "thorough": {"item_writes": 6000, "clear_reset": 3000}}
 ITEM_MUT = ["setitem", "delitem", "pop", "popitem", "update", "setdefault", "insert", "append", "extend",
             "iadd", "remove", "reverse"]
 
